@@ -183,6 +183,7 @@ class Item:
         self.sigsubs = []
         self.keep_derives = False
         self.keep_vis = False
+        self.no_derives = False
         self.pre = []
         self.line = line
 
@@ -254,6 +255,9 @@ def parse_sidecar(path):
                 if not m:
                     raise SpecError('%s:%d: bad sig' % (path, ln))
                 item.sigsubs.append((m.group(1), _unq(m.group(2)), _unq(m.group(3))))
+                cur = None
+            elif key == 'no-derives':
+                item.no_derives = True
                 cur = None
             elif key == 'keep-vis':
                 item.keep_vis = True
@@ -462,6 +466,8 @@ def build(repo, sidecar_path, extra_spec=None):
                 kept = [x for x in names if x in ('Debug', 'Copy', 'Clone', 'PartialEq', 'Eq', 'Hash')]
                 if 'PartialEq' in kept:
                     kept.append('Structural')
+                if item.no_derives:
+                    kept = []
                 if kept:
                     keep_attrs.append('#[derive(%s)]' % ', '.join(kept))
                 g.rewrites.append({'tag': 'R9', 'where': where, 'before': a, 'after': keep_attrs[-1] if kept else ''})
